@@ -53,7 +53,7 @@ def merge_only(db, ctx):
         for c, ps in walk(f.hir):
             if c.get("k") == "MethodCall" and c.get("method") in MUTATORS and _is_path_vec((c.get("rty") or "").replace("&mut ", "").replace("&", "")):
                 if is_concat and c["method"] == "drain":
-                    rng = render(c["args"][0]).replace(" ", "")
+                    rng = _canon(f, render(c["args"][0])).replace(" ", "")
                     ok = "start:(begin+1)" in rng and "end:end" in rng
                     ctx.ob("%s|drain" % f.short(), ok, "%s: path.drain(%s) (must be begin+1..end)" % (f.short(), render(c["args"][0])), fn=f, site=c.get("sp"))
                 else:
@@ -61,11 +61,11 @@ def merge_only(db, ctx):
                            "%s: `%s` mutates the token vector outside the two merge helpers — a path-rewrite plugin may only merge" % (f.short(), render(c)[:100]),
                            fn=f, site=c.get("sp"))
             if c.get("k") == "Assign" and peel(c["l"]).get("k") == "Index" and _is_path_vec((peel(c["l"]).get("bty") or "").replace("&mut ", "").replace("&", "")):
-                idx = render(peel(c["l"])["i"])
+                idx = _canon(f, render(peel(c["l"])["i"])) if is_concat else render(peel(c["l"])["i"])
                 ok = is_concat and idx == "begin"
                 ctx.ob("%s|path[%s]=" % (f.short(), idx), ok, "%s assigns path[%s] (allowed only as path[begin] = merged inside the merge helpers)" % (f.short(), idx), fn=f, site=c.get("sp"))
         if is_concat:
-            ok = any(ek == "err" and pol and cmp_atom(cond) and cmp_atom(cond)[0] == "Ge" and local_name(cmp_atom(cond)[1]) == "begin" and local_name(cmp_atom(cond)[2]) == "end"
+            ok = any(ek == "err" and pol and cmp_atom(cond) and cmp_atom(cond)[0] == "Ge" and _canon(f, local_name(cmp_atom(cond)[1])) == "begin" and _canon(f, local_name(cmp_atom(cond)[2])) == "end"
                      for ifn, cond, pol, ek, ps in guarded_exits(f.hir))
             ctx.ob("%s|rejects-empty-range" % f.short(), ok, "%s returns Err when begin >= end: %s" % (f.short(), ok), fn=f)
     ctx.ob("closure", n >= 6, "%d path-rewrite functions inspected (floor 6)" % n, nontrivial=False)
@@ -77,7 +77,21 @@ def merge_only(db, ctx):
     ctx.floor(8)
 
 
-def _arg_src(e):
+def _canon(f, text):
+    """rendered text with the merge helper's own parameter names replaced by the canonical (path, begin, end) — the rules below
+    speak about the parameters by POSITION (nodes, first index, one-past-last index), not by what they are called"""
+    import re as _re
+    if text is None:
+        return None
+    P = [p_.get("name") for p_ in (f.info.get("params") or []) if isinstance(p_, dict)]
+    if len(P) < 3 or P[:3] == ["path", "begin", "end"]:
+        return text
+    tmp = {P[0]: "\x00path", P[1]: "\x00begin", P[2]: "\x00end"}
+    out = _re.sub(r"\b(%s)\b" % "|".join(_re.escape(x) for x in tmp), lambda m: tmp[m.group(1)], text)
+    return out.replace("\x00", "")
+
+
+def _arg_src(e, f=None):
     """(`begin` | `end - 1` | other, accessor) for expressions like path[begin].begin_bytes"""
     from ..db import deref_all
     e = deref_all(e)
@@ -89,7 +103,8 @@ def _arg_src(e):
         acc = e["name"]
         e = deref_all(e["e"])
     if e.get("k") == "Index":
-        return render(e["i"], x=True).replace(" ", ""), acc
+        t = render(e["i"], x=True).replace(" ", "")
+        return (_canon(f, t) if f is not None else t), acc
     return None, acc
 
 
@@ -101,15 +116,15 @@ def merged_fields(db, ctx):
         for c, _ in walk(f.hir):
             if is_call(c) and path_ends(callee(c), "inner::Node::new"):
                 a = call_args(c)
-                b, ba = _arg_src(a[0])
-                e, ea = _arg_src(a[1])
+                b, ba = _arg_src(a[0], f)
+                e, ea = _arg_src(a[1], f)
                 ctx.ob("%s|char-range" % nm, b == "begin" and ba == "begin" and e == "(end-1)" and ea == "end",
                        "%s: merged character range = (path[%s].%s(), path[%s].%s()) — must be (path[begin].begin(), path[end-1].end())" % (nm, b, ba, e, ea), fn=f, site=c.get("sp"))
             if is_call(c) and path_ends(callee(c), "ResultNode::new"):
                 a = call_args(c)
-                cs, ca = _arg_src(a[1])
-                b, ba = _arg_src(a[2])
-                e, ea = _arg_src(a[3])
+                cs, ca = _arg_src(a[1], f)
+                b, ba = _arg_src(a[2], f)
+                e, ea = _arg_src(a[3], f)
                 ctx.ob("%s|byte-range" % nm, b == "begin" and ba == "begin_bytes" and e == "(end-1)" and ea == "end_bytes" and cs == "(end-1)" and ca == "total_cost",
                        "%s: merged bytes = (path[%s].%s, path[%s].%s), cost = path[%s].%s — must be begin/begin_bytes, end-1/end_bytes, end-1/total_cost" % (nm, b, ba, e, ea, cs, ca), fn=f, site=c.get("sp"))
         # string concatenation loops
@@ -120,8 +135,9 @@ def merged_fields(db, ctx):
             from ..db import deref_all
             ch, base = lchain(db, f, it)
             base = deref_all(base)
-            in_order = {m for m, _ in ch} <= {"iter"} and base.get("k") == "Index" and local_name(base["e"]) == "path" and \
-                range_bounds(base["i"]) == ("begin", "end")
+            P = [p_.get("name") for p_ in (f.info.get("params") or []) if isinstance(p_, dict)] + [None] * 3      # (nodes, first, one-past-last)
+            in_order = {m for m, _ in ch} <= {"iter"} and base.get("k") == "Index" and local_name(base["e"]) == P[0] and \
+                range_bounds(base["i"]) == (P[1], P[2])
             for p, _ in walk(body):
                 if p.get("k") == "MethodCall" and p.get("method") == "push_str":
                     tgt = local_name(p["recv"])
@@ -150,7 +166,7 @@ def merged_fields(db, ctx):
         if n.get("k") == "Struct" and (n.get("path") or "").endswith("WordInfoData"):
             fl = {x["name"]: x["e"] for x in n["fields"] if "e" in x}
             if "pos_id" in fl:
-                got = _nf(fl["pos_id"])
+                got = _canon(f, _nf(fl["pos_id"]))
     ctx.ob("concat_nodes|pos=first-node", got == "path[begin].word_info().pos_id()",
            "merged node takes pos_id from `%s` (must be path[begin].word_info().pos_id(): the node whose POS the numeral plugin checked)" % got, fn=f)
     f = db.one("concat_oov_nodes", None)
@@ -158,20 +174,22 @@ def merged_fields(db, ctx):
     for n, _ in walk(f.hir):
         if n.get("k") == "Struct" and (n.get("path") or "").endswith("WordInfoData"):
             fl = {x["name"]: x["e"] for x in n["fields"]}
-            ok = local_name(fl.get("pos_id")) == "pos_id"
+            from ..inline import pnames
+            ok = local_name(fl.get("pos_id")) == (pnames(f) + [None] * 4)[3]
     ctx.ob("concat_oov_nodes|pos=param", ok, "merged OOV node takes pos_id from the parameter (the plugin's configured id): %s" % ok, fn=f)
     jk = db.one("rewrite_gen", "JoinKatakanaOovPlugin")
     ok = any(is_call(c) and path_ends(callee(c), "concat_oov_nodes") and render(call_args(c)[3]) == "self.oov_pos_id" for c, _ in walk(jk.hir))
     ctx.ob("JoinKatakanaOovPlugin|passes-configured-pos", ok, "concat_oov_nodes(.., self.oov_pos_id): %s" % ok, fn=jk)
     jn = db.one("concat", "JoinNumericPlugin")
-    from ..inline import nf
+    from ..inline import nf, pcanon
+    _jc = lambda t: pcanon(jn, t, "path", "begin", "end", "parser")      # (nodes, first, one-past-last, parser) by position
 
     def _pos_guard(cond, pol):
         # rejecting when the POS of path[begin] differs from the configured numeral POS: `a != b` exiting on true, or `a == b` exiting on false
         c = cmp_atom(cond)
         if not c:
             return False
-        sides = {nf(c[1]), nf(c[2])}
+        sides = {_jc(nf(c[1])), _jc(nf(c[2]))}
         return sides == {"path[begin].word_info().pos_id()", "self.numeric_pos_id"} and ((c[0] == "Ne" and pol) or (c[0] == "Eq" and not pol))
     # every concat_nodes call in `concat` is unreachable when the first node's POS is not the numeral POS (not merely: a guard exists)
     from ..flow import holds_at
@@ -180,7 +198,7 @@ def merged_fields(db, ctx):
     def ev_pos(equal):
         def ev(atom):
             c = cmp_atom(atom)
-            if c and c[0] in ("Eq", "Ne") and {nf(c[1]), nf(c[2])} == {"path[begin].word_info().pos_id()", "self.numeric_pos_id"}:
+            if c and c[0] in ("Eq", "Ne") and {_jc(nf(c[1])), _jc(nf(c[2]))} == {"path[begin].word_info().pos_id()", "self.numeric_pos_id"}:
                 return equal if c[0] == "Eq" else (not equal)
             return None
         return ev
